@@ -383,6 +383,21 @@ theorem atomic_schedule_independent (n : Nat) (sched : List Nat) :
     rw [h0.1, h0.2]; simp [cinit, stateAfter, retransAfter, runTicks])
   simpa [cinit] using this
 
+/-- **C17, the schedule does not depend on `retransmitFn`**: only the critical section changes the
+    backoff state; the step in which a goroutine calls `retransmitFn` (whatever it returns, however
+    long it takes — it is just scheduled later) leaves `(tickCounter, delay, retransmitTick)`
+    untouched.  The harness injects publish errors and publishes that block across later ticks. -/
+theorem retransmit_outcome_irrelevant (s : CState) (t : Nat) (h : s.pcs[t]? ≠ some PC.start) :
+    (cstep s t).b = s.b := by
+  unfold cstep
+  cases hpc : s.pcs[t]? with
+  | none => rfl
+  | some pc =>
+    cases pc with
+    | start => exact absurd hpc h
+    | decided r => rfl
+    | finished => rfl
+
 theorem weight_all_finished (pcs : List PC) (h : ∀ pc ∈ pcs, pc = PC.finished) :
     weight wStarted pcs = pcs.length ∧ weight wPending pcs = 0 := by
   induction pcs with
